@@ -314,12 +314,15 @@ def _main(a, pid, tier, seed, t0):
     anchor_rounds = 0
     if os.environ.get("VERIF_ANCHOR_FORCE") == "1" and not changed_anchors:
         changed_anchors = [("<forced>", "VERIF_ANCHOR_FORCE=1", "soak")]      # development aid: extra rounds on any tree
-    if changed_anchors and not all_fail and not a.only and os.environ.get("VERIF_ANCHOR_BOOST", "1") != "0":
+    def _unlisted(fs):
+        """failures that are not (oracle / property failures matching) a known finding"""
+        return [f for f in fs if not ((f["kind"] == "oracle" or f.get("property_failure")) and match_known(known, pid, f))]
+    if changed_anchors and not _unlisted(all_fail) and not a.only and os.environ.get("VERIF_ANCHOR_BOOST", "1") != "0":
         cap = float(os.environ.get("VERIF_ANCHOR_CAP", "420" if tier == "quick" else "2400"))
         max_rounds = int(os.environ.get("VERIF_ANCHOR_ROUNDS", "4" if tier == "quick" else "2"))
         try:
             for r in range(1, max_rounds + 1):
-                if time.time() - t0 > cap or all_fail:
+                if time.time() - t0 > cap or _unlisted(all_fail):
                     break
                 rng3 = random.Random(f"{pid}-{seed}-anchor{r}")
                 anchor_rounds = r
@@ -332,7 +335,7 @@ def _main(a, pid, tier, seed, t0):
                     all_fail += f
                     ev += e
                     dn += d
-                    if f:
+                    if _unlisted(f):
                         break
         except Timeout:
             anchor_rounds = "timed out"
